@@ -205,6 +205,7 @@ static void check_wait_return (const char *what, int mi, int writer, int r, int6
 		else if (!note_cause_exists (ni, now)) VIOL ("C05", "cancel-unnotified", "%s returned ECANCELED but note %d cannot be notified", what, ni);
 	} else if (r == 0) {
 		nsim_probe (PR_WAIT_WOKEN);
+		if (dl_ns >= 0 && now >= dl_ns) nsim_probe (PR_CV_SIGNAL_VS_TIMEOUT);    /* a wake-up (or a true condition) beat an expired deadline */
 	} else {
 		VIOL ("C05", "bad-result", "%s returned %d", what, r);
 	}
@@ -224,6 +225,7 @@ static void cond_context_check (const cond_arg *c) {
 	if (w >= 0 && w != nsim_self ()) {
 		VIOL ("C06", "cond-during-write", "condition evaluated by t%d while t%d is inside a write section of mu%d", nsim_self (), w, c->mi);
 	}
+	if (nsim_fibre_in_func (nsim_self (), "nsync_mu_unlock_slow_")) nsim_probe (PR_COND_BY_OTHER);
 	if ((word & (MU_WLOCK | MU_RLOCK_FIELD)) == 0) {
 		VIOL ("C06", "cond-unlocked", "condition evaluated by t%d while mu%d is not held at all (word 0x%x)", nsim_self (), c->mi, word);
 	}
